@@ -109,5 +109,23 @@ func (r *NodeManagement) HandleMessage(message *api.Message) *model.ErrorType {
 		return model.NewErrorType(model.ErrorNumberTypeCommandNotSupported, fmt.Sprintf("nodemanagement.Handle: Cmd data not implemented: %s", message.Cmd.DataName()))
 	}
 
+	// an accepted reply invokes the callbacks registered for the referenced request,
+	// as FeatureLocal.processReply does (result messages are handled by processResult)
+	if message.CmdClassifier == model.CmdClassifierTypeReply &&
+		message.Cmd.ResultData == nil &&
+		message.RequestHeader != nil && message.RequestHeader.MsgCounterReference != nil {
+		if cmdData, err := message.Cmd.Data(); err == nil {
+			responseMsg := api.ResponseMessage{
+				MsgCounterReference: *message.RequestHeader.MsgCounterReference,
+				Data:                cmdData.Value,
+				FeatureLocal:        r,
+				FeatureRemote:       message.FeatureRemote,
+				EntityRemote:        message.EntityRemote,
+				DeviceRemote:        message.DeviceRemote,
+			}
+			r.processResponseMsgCallbacks(*message.RequestHeader.MsgCounterReference, responseMsg)
+		}
+	}
+
 	return nil
 }
